@@ -182,8 +182,10 @@ def check(res, iv, bounds, win, group, scalar, multi):
             if any(CUR["both"][i][1] != CUR["both"][i + 1][0] for i in range(len(CUR["both"]) - 1)):
                 res.violation("owm:consumer-not-adjacent", "calls not adjacent", case)
     except Exception as e:
-        longrow = any(b - a > 2 * win[0] for a, b in iv)
-        cls = (":group" if group else ":row") + f":wl{'0' if win[0] == 0 else '+'}" + (":row>2wl" if longrow else ":rows<=2wl")
+        # class of the input: is some row longer than the look-back window?  (a row can only straddle the previously
+        # valid region while its left neighbours have already left the input cache if it is longer than wl)
+        longrow = any(b - a > win[0] for a, b in iv)
+        cls = (":group" if group else ":row") + f":wl{'0' if win[0] == 0 else '+'}" + (":row>wl" if longrow else ":rows<=wl")
         res.violation(ctxrun.exc_fp(e, 3) + cls, f"{type(e).__name__}: {e}"[:300], case)
 
 
